@@ -139,6 +139,11 @@ pub enum SinkState {
 pub struct LinkEnd {
     /// messages this endpoint has put on the link, not yet taken by the peer
     pub wire: VecDeque<WireItem>,
+    /// messages accepted by `start_send` and not yet flushed: a sink may buffer, only `poll_flush` / `poll_close` put them on
+    /// the link
+    pub unflushed: VecDeque<WireItem>,
+    /// `poll_flush` completes in this poll (else it is Pending)
+    pub flush_grant: bool,
     pub send_grant: u32,
     pub recv_grant: u32,
     pub sink: SinkState,
@@ -162,6 +167,8 @@ impl Link {
     pub fn new() -> Self {
         let mk = || LinkEnd {
             wire: VecDeque::new(),
+            unflushed: VecDeque::new(),
+            flush_grant: true,
             send_grant: 0,
             recv_grant: 0,
             sink: SinkState::Open,
@@ -207,11 +214,30 @@ impl WebSocket for SimWs {
             return Err(ws_err());
         }
         end.sent_log.push(item.clone());
-        end.wire.push_back(WireItem::Msg(item));
+        end.unflushed.push_back(WireItem::Msg(item));
         Ok(())
     }
     fn poll_flush_unpin(&mut self, _cx: &mut Context<'_>) -> Poll<Result<(), penguin_mux::Error>> {
-        Poll::Ready(Ok(()))
+        let mut l = self.link.lock().unwrap();
+        let end = &mut l.ends[self.me];
+        match end.sink {
+            SinkState::Open => {
+                if !end.flush_grant {
+                    return Poll::Pending;
+                }
+                while let Some(m) = end.unflushed.pop_front() {
+                    end.wire.push_back(m);
+                }
+                Poll::Ready(Ok(()))
+            }
+            SinkState::Cut | SinkState::SoftCut | SinkState::Closed => {
+                if end.unflushed.is_empty() && end.sink == SinkState::Closed {
+                    return Poll::Ready(Ok(()));
+                }
+                end.unflushed.clear();
+                Poll::Ready(Err(ws_err()))
+            }
+        }
     }
     fn poll_close_unpin(&mut self, _cx: &mut Context<'_>) -> Poll<Result<(), penguin_mux::Error>> {
         let mut l = self.link.lock().unwrap();
@@ -220,6 +246,10 @@ impl WebSocket for SimWs {
             SinkState::Open => {
                 end.sink = SinkState::Closed;
                 end.sent_log.push(Message::Close);
+                // closing flushes what the sink has buffered
+                while let Some(m) = end.unflushed.pop_front() {
+                    end.wire.push_back(m);
+                }
                 end.wire.push_back(WireItem::Msg(Message::Close));
                 Poll::Ready(Ok(()))
             }
@@ -1303,6 +1333,7 @@ impl Sim {
             "task" => {
                 let gr = cmd["gr"].as_u64().unwrap_or(0) as u32;
                 let gs = cmd["gs"].as_u64().unwrap_or(0) as u32;
+                let gf = cmd["gf"].as_u64().unwrap_or(1) as u32;
                 if self.eps[i].task.is_none() {
                     return false;
                 }
@@ -1310,6 +1341,7 @@ impl Sim {
                     let mut l = self.link.lock().unwrap();
                     l.ends[i].recv_grant = gr;
                     l.ends[i].send_grant = gs;
+                    l.ends[i].flush_grant = gf > 0;
                     l.ends[i].sent_log.clear();
                     l.ends[i].rcv_log = None;
                 }
@@ -1327,7 +1359,11 @@ impl Sim {
                         self.eps[i].task_res = Some(k.clone());
                         // the WebSocket object is destroyed with the task: the transport closes and
                         // the peer's source ends after whatever is still in flight
-                        self.link.lock().unwrap().ends[i].wire.push_back(WireItem::Eos);
+                        {
+                            let mut l = self.link.lock().unwrap();
+                            l.ends[i].unflushed.clear();
+                            l.ends[i].wire.push_back(WireItem::Eos);
+                        }
                         k
                     }
                 };
@@ -1339,7 +1375,7 @@ impl Sim {
                     let rcv = l.ends[i].rcv_log.as_ref().map(decode_item).unwrap_or_else(none_msg);
                     (sent, rcv)
                 };
-                self.emit(json!({"ev": "task", "e": e, "gr": gr, "gs": gs, "rcv": rcv, "sent": sent, "res": res}));
+                self.emit(json!({"ev": "task", "e": e, "gr": gr, "gs": gs, "gf": gf, "rcv": rcv, "sent": sent, "res": res}));
                 true
             }
             "advance" => {
